@@ -512,7 +512,7 @@ def main(argv):
         elif a == "--keep":
             os.environ["VERIF_KEEP"] = "1"
             i += 1
-        elif a in ("--selftest", "--u1", "--sany"):
+        elif a in ("--selftest", "--u1", "--sany", "--proofs"):
             mode = a[2:]
             i += 1
         else:
@@ -526,6 +526,8 @@ def main(argv):
             return props.sany()
         if mode == "u1":
             return props.all_u1(ids)
+        if mode == "proofs":
+            return props.proofs()
         if mode == "selftest":
             return props.selftest(ids, seed)
         if len(ids) != 1 or ids[0] not in props.CHECKS:
